@@ -34,8 +34,21 @@ def _ensure_integer_ids(df: pd.DataFrame) -> pd.DataFrame:
         id_mapping = {
             original_id: new_id for new_id, original_id in enumerate(unique_ids, start=1)
         }
+        new_parent_ids = df["parent_id"].map(id_mapping)
+        # a parent that is not an id (other than the "no parent" markers) is an error,
+        # not a root
+        unknown = (
+            new_parent_ids.isna()
+            & df["parent_id"].notna()
+            & ~df["parent_id"].isin([-1, "-1", ""])
+        )
+        if unknown.any():
+            raise ValueError(
+                "Some parent ids do not occur in the 'id' column: "
+                f"{df['parent_id'][unknown].tolist()}"
+            )
         df["id"] = df["id"].map(id_mapping)
-        df["parent_id"] = df["parent_id"].map(id_mapping).astype(pd.Int64Dtype())
+        df["parent_id"] = new_parent_ids.astype(pd.Int64Dtype())
 
     return df
 
